@@ -57,6 +57,9 @@ type options struct {
 	// settings with references currently being unpacked into a typed target
 	reifying map[*cfgDynamic]struct{}
 
+	// pointers of the target the validation of defaults is currently below
+	validating map[uintptr]struct{}
+
 	activeFields *fieldSet
 
 	// cycles counts the cyclic references detected so far. It is shared by
@@ -289,6 +292,7 @@ func makeOptions(opts []Option) *options {
 		maxIdx:       defaultMaxIdx,
 		cycles:       new(int),
 		reifying:     map[*cfgDynamic]struct{}{},
+		validating:   map[uintptr]struct{}{},
 	}
 	for _, opt := range opts {
 		opt(&o)
